@@ -156,7 +156,7 @@ def unit(u, res):
 
 
 def replay_ce(ce):
-    if 'operator' in ce and 'children' in ce:
+    if ('operator' in ce and 'children' in ce) or ce.get('walk'):
         return c08.replay_ce(ce)
     if ce.get('default_set_value'):
         # native: a user-defined storage-less context (runner ServeCtx) that serves value s for every identifier; every write must fail with
